@@ -20,6 +20,7 @@ type c08Req struct {
 	HopNames  []string // header names nominated by Connection (must not arrive)
 	Stream    uint32
 	Resp      *RespPlan
+	Expect    bool // h1: the request carries Expect: 100-continue and its body waits for the go-ahead
 }
 
 type c08Aux struct {
@@ -27,6 +28,7 @@ type c08Aux struct {
 	Preserve  bool
 	Canceller bool
 	Pipelined int
+	Expect100 int
 	Upgrade   *c08Upgrade
 }
 
@@ -340,6 +342,16 @@ func drawC08(t *rapid.T) *Case {
 						rq.Chunked = []int{}
 					}
 				}
+				if len(rq.Spec.Body) > 0 && ri == nr-1 && !aged && drawBool(t, "expect100", 35) {
+					// Expect: 100-continue on the connection's last request: head first, the body
+					// when the go-ahead arrives
+					rq.Expect = true
+					raw := c08H1Bytes(rq)
+					k := bytes.Index(raw, []byte("\r\n\r\n")) + 4
+					cp.Steps = append(cp.Steps, Step{Kind: "h1expect", Pieces: [][]byte{raw[:k], raw[k:]}, Tag: tag, Method: rq.Spec.Method})
+					aux.Expect100++
+					continue
+				}
 				raw := c08H1Bytes(rq)
 				pieces := [][]byte{raw}
 				if drawBool(t, "h1pieces", 40) && len(raw) > 10 {
@@ -515,6 +527,9 @@ func c08H1Bytes(rq *c08Req) []byte {
 	fmt.Fprintf(&b, "%s %s HTTP/1.1\r\nHost: %s\r\nX-Tag: %s\r\n", r.Method, r.Path, r.Host, r.Tag)
 	for _, kv := range r.Header {
 		fmt.Fprintf(&b, "%s: %s\r\n", kv[0], kv[1])
+	}
+	if rq.Expect {
+		b.WriteString("Expect: 100-continue\r\n")
 	}
 	if rq.Chunked == nil {
 		if len(r.Body) > 0 || r.Method == "POST" || r.Method == "PUT" || r.Method == "PATCH" {
@@ -742,6 +757,13 @@ func oracleC08(w *World, c *Case) {
 			}
 			// informational responses: exactly those the back-end sent, with their fields
 			info := clientInfo(w, ci, ri, tag)
+			if rq.Expect {
+				if w.Clients[ci].Continues == 0 {
+					w.Violate("continue_missing", "continue_missing", "%s: the request carried Expect: 100-continue and the back-end read its body, but no 100 (Continue) reached the client", where)
+				} else {
+					w.Probe("expect_100_continue_checked")
+				}
+			}
 			if len(rp.Early) == 0 {
 				if len(info) > 0 {
 					w.Violate("informational_invented", "informational_invented", "%s: the client received %d informational response(s) (first %d) the back-end never sent", where, len(info), info[0].Status)
@@ -894,5 +916,5 @@ func clientTrailers(w *World, ci, ri int, tag string) map[string][]string {
 
 func init() {
 	register(&CheckDef{ID: "C08", Level: "exploration", Engine: "A", Draw: drawC08,
-		Rule: "1-3 clients (raw-frame HTTP/2 with up to 4 requests in flight, or HTTP/1.1 keep-alive), each request with a drawn method (GET/POST/PUT/DELETE/PATCH/OPTIONS/HEAD), path with percent-escapes and sub-delims, net/url-parseable query (repeated keys, empty values, escapes), 0-6 end-to-end header fields (empty, repeated, 1-6 kB, separators), User-Agent present or not, cookies (split into crumbs on HTTP/2), hop-by-hop and Connection-nominated fields, body of 0 / 1 / boundary / up to 3 MiB bytes sent as DATA frames or chunks of drawn sizes, with or without Content-Length, request trailers; back-end response with drawn status (incl. 204/304/HEAD), header set, body of the same size classes written in drawn pieces with flushes, trailers (announced, unannounced, both, two-valued); 10%: a 103 (Early Hints) informational response before the final one; 25% of the HTTP/1.1 clients pipeline their requests; 30%: a further HTTP/2 client that cancels large downloads part-way; 20%: a further HTTP/1.1 client that upgrades the protocol (101 through the reverse proxy) and exchanges 1-4 opaque messages of 1 B-40 kB with the back-end through the tunnel (request, 101 and every tunnel byte compared in both directions); 30%: frame writes held in flight by the controller (write fence), 12%: cancel focus (four cancelled downloads next to streamed multi-frame downloads, all writes fenced); -preserve-host on/off, back-end keep-alive on/off, any write scheduler, segmentation in both directions; delivery order by the controller. Oracle: comparator in both directions (names case-insensitive, values / multiplicity / order exact, hop-by-hop set removed, Host rule, bodies byte-exact, trailers). Non-trivial: at least one request reached the back-end. Distinct: distinct controller action-label sequences."})
+		Rule: "1-3 clients (raw-frame HTTP/2 with up to 4 requests in flight, or HTTP/1.1 keep-alive), each request with a drawn method (GET/POST/PUT/DELETE/PATCH/OPTIONS/HEAD), path with percent-escapes and sub-delims, net/url-parseable query (repeated keys, empty values, escapes), 0-6 end-to-end header fields (empty, repeated, 1-6 kB, separators), User-Agent present or not, cookies (split into crumbs on HTTP/2), hop-by-hop and Connection-nominated fields, body of 0 / 1 / boundary / up to 3 MiB bytes sent as DATA frames or chunks of drawn sizes, with or without Content-Length, request trailers; back-end response with drawn status (incl. 204/304/HEAD), header set, body of the same size classes written in drawn pieces with flushes, trailers (announced, unannounced, both, two-valued); 10%: a 103 (Early Hints) informational response before the final one; 25% of the HTTP/1.1 clients pipeline their requests; 35% of the last HTTP/1.1 uploads of a connection carry Expect: 100-continue and hold their body back until a 100 arrives; 30%: a further HTTP/2 client that cancels large downloads part-way; 20%: a further HTTP/1.1 client that upgrades the protocol (101 through the reverse proxy) and exchanges 1-4 opaque messages of 1 B-40 kB with the back-end through the tunnel (request, 101 and every tunnel byte compared in both directions); 30%: frame writes held in flight by the controller (write fence), 12%: cancel focus (four cancelled downloads next to streamed multi-frame downloads, all writes fenced); -preserve-host on/off, back-end keep-alive on/off, any write scheduler, segmentation in both directions; delivery order by the controller. Oracle: comparator in both directions (names case-insensitive, values / multiplicity / order exact, hop-by-hop set removed, Host rule, bodies byte-exact, trailers). Non-trivial: at least one request reached the back-end. Distinct: distinct controller action-label sequences."})
 }
